@@ -87,6 +87,11 @@ INVALID = [
     'require "vacation";\nvacation :seconds 60 "r";\n',              # vacation-seconds not required
     b'# caf\xe9 latin-1 comment\nkeep;\n',                          # not UTF-8
     b'keep;\nkeep;\nkeep;\nif header :is "a" "\xff\xfe" { keep; }\n',  # not UTF-8, late in the script
+    # parses that end with an exception of their own *after* their require was taken in (a string that is not UTF-8; an
+    # error message that indexes the text by a byte offset)
+    b'require ["fileinto", "copy"];\nif header :is "a" "\xff\xfe" { fileinto :copy "x"; }\n',
+    'require ["fileinto", "copy"];\n# caf\u00e9 \u65e5\u672c\u65e5\u672c\u65e5\u672c\u65e5\u672c\u65e5\u672c\nif header :is "a" "b" { fileinto :copy "x" }\n',
+    'require ["regex", "body"];\n# \u65e5\u672c\u65e5\u672c\u65e5\u672c\u65e5\u672c\u65e5\u672c\u65e5\u672c\nif body :raw :regex "x" { keep }\n',
 ]
 
 EDITOR_DEFS = [
